@@ -121,6 +121,17 @@ Inductive violation :=
 | RStatWaiting (tour : Z) | RStatBreak (tour : Z) | RStatCost (tour : Z)
 | RLoadDim (tour : Z) (dim : Z) (stop : Z)   (* as RLoad, in capacity dimension dim >= 1 *)
 | RTotal (field : Z)              (* overall statistic field (0 cost,1 distance,2 duration,3 driving,4 serving,5 waiting,6 break) <> sum of tours *)
+(* round four (Spec/ValidX.v): replacement tasks / mixed jobs, required breaks, vicinity clustering, recharge stations *)
+| AJobMixedOrder (job : Z)        (* jobs.md "Mixing job tasks": a pickup of the job is served after a delivery, replacement or
+                                     service of the same job *)
+| ARequiredBreak (tour : Z)       (* the break activities / transit stops of a tour whose shift defines REQUIRED breaks are not
+                                     DISTINCT required breaks of that very shift (duration = the break's duration, start inside
+                                     [earliest, latest], relative to the tour's departure for an offset time), or they overlap *)
+| FRequiredBreakMissing (tour : Z)  (* a required break whose latest start lies inside the tour's time span is not taken *)
+| FReservedTime (tour : Z) (act : Z)  (* the reserved time of a required break is used for something else: between the reported
+                                     start and end of activity `act` (flattened index in the tour without its break activities)
+                                     there is less time outside the breaks than its place's duration, or between the previous
+                                     activity's end and its arrival less than the travel time *)
 .
 
 (* ------------------------------------------------------------------ small helpers *)
